@@ -8,6 +8,7 @@
 package main
 
 import (
+	"flag"
 	"fmt"
 	"os"
 	"path/filepath"
@@ -39,6 +40,11 @@ func failKeys(oc compa.Outcome) (keys []string, detail string) {
 	}
 	for _, is := range r.Issues {
 		k := strings.SplitN(is, ": ", 2)[0]
+		if strings.HasPrefix(k, "error-method-panics:") {
+			keys = append(keys, k)
+			detail += is + "; "
+			continue
+		}
 		keys = append(keys, "error-position:"+k)
 		detail += is + "; "
 	}
@@ -110,6 +116,7 @@ func main() {
 		compa.WorkerMain(os.Args[2])
 		return
 	}
+	pastDir := flag.String("past", "/verif/corpus/C07", "directory of minimised past failures (*.blob), replayed first")
 	f := vh.ParseFlags()
 	o := vh.NewOut(f.Out)
 	defer o.Close()
@@ -132,6 +139,15 @@ func main() {
 	thorough := f.Tier == "thorough"
 	r := vh.NewRand(f.Seed)
 	o.Stats["corpus_items"] = len(corpus)
+	// 0. minimised past failures
+	if ents, err := os.ReadDir(*pastDir); err == nil {
+		for _, e := range ents {
+			if b, err := os.ReadFile(filepath.Join(*pastDir, e.Name())); err == nil && strings.HasSuffix(e.Name(), ".blob") {
+				runCase(o, compa.UnBlob(strings.TrimSpace(string(b))), "past:"+e.Name(), false)
+				o.Count("past_failures_replayed")
+			}
+		}
+	}
 	// 1. corpus as is (rotating quarter in quick)
 	for i, it := range corpus {
 		if thorough || (i+int(f.Seed))%4 == 0 {
